@@ -1249,3 +1249,342 @@ Proof.
   exists (mkEntry 0 0 false). split; [simpl; auto|].
   intros k Hk. vm_compute in Hk. inversion Hk. reflexivity.
 Qed.
+
+(* ====================================================================== dispatch ORDER: the ordered abstract machine *)
+Lemma filter_true {X} (l : list X) : filter (fun _ => true) l = l.
+Proof. induction l; simpl; congruence. Qed.
+
+Lemma filter_filter {X} (f g : X -> bool) l : filter f (filter g l) = filter (fun x => g x && f x) l.
+Proof. induction l; simpl; auto. destruct (g a); simpl; [destruct (f a)|]; congruence. Qed.
+
+Lemma flat_map_map {X Y Z} (g : X -> Y) (f : Y -> list Z) l : flat_map f (map g l) = flat_map (fun x => f (g x)) l.
+Proof. induction l; simpl; congruence. Qed.
+
+Lemma flat_map_ext_in {X Y} (f g : X -> list Y) l : (forall x, In x l -> f x = g x) -> flat_map f l = flat_map g l.
+Proof. induction l; simpl; intros H; auto. rewrite H, IHl; auto. Qed.
+
+Definition matchb (o : option handle) (m : nat) (q : bool) (e : entry) : bool :=
+  match o with
+  | Some hd => (hd_mod hd =? m) && Bool.eqb (hd_pre hd) q && (hd_id hd =? e_id e)
+  | None => false
+  end.
+
+Lemma mod_lst_detach_one_eq mods o m q :
+  mod_lst (detach_one mods o) m q = filter (fun e => negb (matchb o m q e)) (mod_lst mods m q).
+Proof.
+  destruct o as [hd|]; simpl; [|symmetry; apply filter_true].
+  rewrite mod_lst_remove. destruct ((hd_mod hd =? m) && Bool.eqb (hd_pre hd) q); simpl.
+  - unfold remove_id. apply filter_ext. intros e. rewrite Nat.eqb_sym. reflexivity.
+  - symmetry; apply filter_true.
+Qed.
+
+(* removing the handles of hook object h removes exactly h from the dispatch order *)
+Lemma detach_by_hook w h k m q :
+  SInv w -> nth_error (w_hooks w) h = Some k -> k_alive k = true ->
+  map e_hook (mod_lst (detach_handles (w_mods w) (k_preh k) (k_posth k)) m q) =
+  filter (fun x => negb (x =? h)) (map e_hook (mod_lst (w_mods w) m q)).
+Proof.
+  intros [HE HN HH] Hk Ha. unfold detach_handles. rewrite !mod_lst_detach_one_eq, filter_filter, filter_map_comm.
+  f_equal. apply filter_ext_in. intros e Hin.
+  destruct (HE m q e Hin) as [_ [k0 [Hk0 [Ha0 [Hh0 _]]]]].
+  destruct (Nat.eqb_spec (e_hook e) h) as [E|E]; simpl.
+  - rewrite E, Hk in Hk0. inversion Hk0; subst k0. destruct q; simpl in Hh0; rewrite Hh0; simpl;
+      rewrite !Nat.eqb_refl; simpl; auto. apply andb_false_r.
+  - assert (Hno : forall p hd, hnd k p = Some hd -> matchb (Some hd) m q e = false).
+    { intros p hd Hh. simpl. destruct (Nat.eqb_spec (hd_mod hd) m) as [E1|]; simpl; auto.
+      destruct (Bool.eqb_spec (hd_pre hd) q) as [E2|]; simpl; auto.
+      destruct (Nat.eqb_spec (hd_id hd) (e_id e)) as [E3|]; auto. exfalso.
+      destruct (HH h k p hd Hk Ha Hh) as [Hp Hin']. rewrite E1 in Hin'. rewrite E2 in Hp. subst p.
+      pose proof (NoDup_map_inj e_id _ _ _ (HN m q) Hin Hin') as Heq. simpl in Heq.
+      specialize (Heq (eq_sym E3)). apply E. rewrite Heq. reflexivity. }
+    destruct (k_preh k) as [hd1|] eqn:E1; destruct (k_posth k) as [hd2|] eqn:E2;
+      rewrite ?(Hno true hd1 E1), ?(Hno false hd2 E2); reflexivity.
+Qed.
+
+Lemma map_hook_add_entry b e l : map e_hook (add_entry b e l) = ins b (e_hook e) (map e_hook l).
+Proof. unfold add_entry, ins. destruct b; simpl; auto. rewrite map_app. reflexivity. Qed.
+
+Lemma reg_at_mods pre w h k m w1 k1 :
+  m < length (w_mods w) -> reg_at pre w h k m = Some (w1, k1) ->
+  k_cfg k1 = k_cfg k /\
+  forall m' q, map e_hook (mod_lst (w_mods w1) m' q) =
+               if (m =? m') && Bool.eqb pre q then ins (c_prepend (k_cfg k) pre) h (map e_hook (mod_lst (w_mods w) m' q))
+               else map e_hook (mod_lst (w_mods w) m' q).
+Proof.
+  intros Hm. unfold reg_at. destruct (c_bad (k_cfg k) pre); [discriminate|].
+  intros E; inversion E; subst; clear E. split; [apply set_hnd_cfg|]. intros m' q. simpl.
+  rewrite mod_lst_set, (proj2 (Nat.ltb_lt _ _) Hm), andb_true_r.
+  destruct (Nat.eqb_spec m m') as [<-|]; simpl; auto.
+  destruct (Bool.eqb pre q) eqn:Eq; auto.
+  apply Bool.eqb_prop in Eq. subst q. rewrite map_hook_add_entry. reflexivity.
+Qed.
+
+Definition is_none {X} (o : option X) : bool := match o with None => true | Some _ => false end.
+
+(* the hook dictionaries after Hook.register, in terms of hook objects only *)
+Lemma register_mods w h k m :
+  Inv w -> nth_error (w_hooks w) h = Some k -> k_alive k = true ->
+  forall m' q,
+    map e_hook (mod_lst (w_mods (fst (hook_register w h k m))) m' q) =
+    if is_none (snd (hook_register w h k m)) && (m =? m') && c_has (k_cfg k) q
+    then ins (c_prepend (k_cfg k) q) h (map e_hook (mod_lst (w_mods w) m' q))
+    else map e_hook (mod_lst (w_mods w) m' q).
+Proof.
+  intros [HS HP] Hk Ha m' q. pose proof (HP h k Hk Ha) as Hok.
+  unfold hook_register.
+  destruct (registered k) eqn:R; [reflexivity|].
+  destruct (nth_error (w_mods w) m) as [md|] eqn:Hmd; [|reflexivity].
+  pose proof (nth_error_Some_lt _ _ _ Hmd) as Hm.
+  pose proof (p_safe _ _ Hok) as Hsafe. unfold safe_cfg in Hsafe.
+  pose proof (p_some _ _ Hok) as Hsome.
+  destruct (c_pre (k_cfg k)) eqn:Cpre.
+  - destruct (reg_at true w h k m) as [[w1 k1]|] eqn:R1; [|reflexivity].
+    destruct (reg_at_mods true w h k m w1 k1 Hm R1) as [Ec1 Hl1].
+    assert (Hm1 : m < length (w_mods w1)).
+    { unfold reg_at in R1. destruct (c_bad (k_cfg k) true); [discriminate|]. inversion R1; subst; simpl.
+      rewrite mod_set_lst_length; auto. }
+    destruct (c_post (k_cfg k)) eqn:Cpost.
+    + destruct (reg_at false w1 h k1 m) as [[w2 k2]|] eqn:R2.
+      * destruct (reg_at_mods false w1 h k1 m w2 k2 Hm1 R2) as [Ec2 Hl2]. simpl.
+        rewrite Hl2, Hl1, Ec1. destruct (m =? m'); simpl; auto. destruct q; simpl; rewrite ?Cpre, ?Cpost; reflexivity.
+      * exfalso. unfold reg_at in R1, R2. rewrite Ec1 in R2. simpl c_bad in *.
+        destruct (c_pre_bad (k_cfg k)); [discriminate|]. destruct (c_post_bad (k_cfg k)); simpl in *; discriminate.
+    + simpl. rewrite Hl1. destruct (m =? m'); simpl; auto. destruct q; simpl; rewrite ?Cpre, ?Cpost; reflexivity.
+  - simpl in Hsome. rewrite Hsome.
+    destruct (reg_at false w h k m) as [[w2 k2]|] eqn:R2; [|reflexivity].
+    destruct (reg_at_mods false w h k m w2 k2 Hm R2) as [Ec2 Hl2]. simpl.
+    rewrite Hl2. destruct (m =? m'); simpl; auto. destruct q; simpl; rewrite ?Cpre, ?Hsome; reflexivity.
+Qed.
+
+Lemma ord_lst_remove o h m q : ord_lst (ord_remove o h) m q = filter (fun x => negb (x =? h)) (ord_lst o m q).
+Proof.
+  unfold ord_lst, ord_remove. rewrite nth_error_map. destruct (nth_error o m) as [pq|]; simpl; auto.
+  destruct q; reflexivity.
+Qed.
+
+Lemma ord_lst_insert o m c h m' q :
+  ord_lst (ord_insert o m c h) m' q =
+  if (m =? m') && c_has c q && (m <? length o) then ins (c_prepend c q) h (ord_lst o m' q) else ord_lst o m' q.
+Proof.
+  unfold ord_lst, ord_insert. destruct (nth_error o m) as [pq|] eqn:E.
+  - pose proof (nth_error_Some_lt _ _ _ E) as Hlt. rewrite nth_error_upd, (proj2 (Nat.ltb_lt _ _) Hlt).
+    destruct (Nat.eqb_spec m m') as [<-|]; simpl; auto. rewrite E.
+    destruct q; simpl; [destruct (c_pre c)|destruct (c_post c)]; reflexivity.
+  - apply nth_error_None in E. destruct (Nat.ltb_spec m (length o)); try lia. rewrite !andb_false_r. reflexivity.
+Qed.
+
+Lemma ord_remove_length o h : length (ord_remove o h) = length o.
+Proof. apply map_length. Qed.
+Lemma ord_insert_length o m c h : length (ord_insert o m c h) = length o.
+Proof. unfold ord_insert. destruct (nth_error o m); auto. apply upd_length. Qed.
+
+Lemma filter_notin l h : ~ In h l -> filter (fun x => negb (x =? h)) l = l.
+Proof.
+  induction l; simpl; intros Hn; auto. destruct (Nat.eqb_spec a h); simpl.
+  - exfalso; apply Hn; auto.
+  - rewrite IHl; auto.
+Qed.
+
+Definition OInv (w : world) (ow : oworld) : Prop :=
+  o_abs ow = abs w /\ length (o_ord ow) = length (w_mods w) /\
+  forall m q, map e_hook (mod_lst (w_mods w) m q) = ord_lst (o_ord ow) m q.
+
+Lemma new_hook_mods w c te ee : w_mods (fst (new_hook w c te ee)) = w_mods w.
+Proof.
+  unfold new_hook. destruct (c_kind c); try (destruct (c_pre c || c_post c); reflexivity).
+  destruct (nth_error (w_mods w) (c_mod c)); reflexivity.
+Qed.
+
+Lemma hook_register_length w h k m : length (w_mods (fst (hook_register w h k m))) = length (w_mods w).
+Proof.
+  unfold hook_register. destruct (registered k); auto. destruct (nth_error (w_mods w) m); auto.
+  assert (Hr : forall p w0 k0 w1 k1, reg_at p w0 h k0 m = Some (w1, k1) -> length (w_mods w1) = length (w_mods w0)).
+  { intros p w0 k0 w1 k1. unfold reg_at. destruct (c_bad (k_cfg k0) p); [discriminate|].
+    intros E; inversion E; simpl. apply mod_set_lst_length. }
+  destruct (c_pre (k_cfg k)).
+  - destruct (reg_at true w h k m) as [[w1 k1]|] eqn:R1; auto. pose proof (Hr _ _ _ _ _ R1) as L1.
+    destruct (c_post (k_cfg k)); simpl; auto.
+    destruct (reg_at false w1 h k1 m) as [[w2 k2]|] eqn:R2; simpl; auto. rewrite (Hr _ _ _ _ _ R2); auto.
+  - destruct (c_post (k_cfg k)); simpl; auto.
+    destruct (reg_at false w h k m) as [[w2 k2]|] eqn:R2; simpl; auto. rewrite (Hr _ _ _ _ _ R2); auto.
+Qed.
+
+Lemma dead_not_listed w h m q :
+  SInv w -> (forall k, nth_error (w_hooks w) h = Some k -> k_alive k = false) ->
+  ~ In h (map e_hook (mod_lst (w_mods w) m q)).
+Proof.
+  intros HS Hd Hin. apply in_map_iff in Hin. destruct Hin as [e [E Hin]].
+  destruct (s_entries _ HS m q e Hin) as [_ [k [Hk [Ha _]]]]. rewrite E in Hk. rewrite (Hd k Hk) in Ha. discriminate.
+Qed.
+
+(* every operation keeps the concrete dispatch order equal to the ordered abstract machine's *)
+Theorem ostep_sound w ow o :
+  Inv w -> safe_op o = true -> OInv w ow -> OInv (fst (fst (step w o))) (ostep ow o).
+Proof.
+  intros HI Hsafe [Eabs [Elen Hord]]. pose proof HI as [HS HP].
+  destruct (step_sound w o HI Hsafe) as [_ [Habs' _]].
+  unfold OInv, ostep. rewrite Eabs. simpl o_abs. split; [symmetry; exact Habs'|].
+  destruct o.
+  - (* ONew *)
+    simpl. destruct (state_cfg_ok c); simpl; [|auto].
+    pose proof (new_hook_mods w c te ee) as Em. destruct (new_hook w c te ee) as [w' e]; simpl in *. rewrite Em. auto.
+  - (* ORegister *)
+    simpl step. unfold with_hook. simpl astep. unfold a_with. rewrite nth_error_abs_hooks.
+    destruct (nth_error (w_hooks w) h) as [k|] eqn:Hk; simpl; [|auto].
+    destruct (k_alive k) eqn:Ha; simpl.
+    2:{ (rewrite nth_error_abs_hooks || rewrite nth_error_map); rewrite Hk; simpl. destruct (abs_reg k); auto. }
+    assert (Hreg : forall m0,
+              let r := hook_register w h k m0 in
+              let a' := fst (a_register (abs w) h (abs_hook k) m0) in
+              length (match nth_error (a_hooks a') h with
+                      | Some k' => match abs_reg k, a_reg k' with
+                                   | None, Some m' => ord_insert (o_ord ow) m' (k_cfg k) h
+                                   | _, _ => o_ord ow end
+                      | None => o_ord ow end) = length (w_mods (fst r)) /\
+              forall m' q, map e_hook (mod_lst (w_mods (fst r)) m' q) =
+                ord_lst (match nth_error (a_hooks a') h with
+                         | Some k' => match abs_reg k, a_reg k' with
+                                      | None, Some m' => ord_insert (o_ord ow) m' (k_cfg k) h
+                                      | _, _ => o_ord ow end
+                         | None => o_ord ow end) m' q).
+    { intros m0 r a'.
+      destruct (register_sound w h k m0 HI Hk Ha) as [_ [_ Herr]]. fold r in Herr.
+      pose proof (register_mods w h k m0 HI Hk Ha) as Hm. fold r in Hm.
+      unfold r at 1. rewrite hook_register_length.
+      subst a'. revert Herr. unfold a_register. simpl a_reg. rewrite (is_some_abs_reg k Ha).
+      destruct (registered k) eqn:R.
+      - simpl. intros Herr. (rewrite nth_error_abs_hooks || rewrite nth_error_map); rewrite Hk; simpl.
+        assert (En : abs_reg k <> None).
+        { intros En. pose proof (is_some_abs_reg k Ha) as Hx. rewrite En, R in Hx. discriminate. }
+        destruct (abs_reg k); [|congruence]. split; auto. intros m' q. rewrite Hm, Herr. simpl. auto.
+      - assert (En : abs_reg k = None).
+        { pose proof (is_some_abs_reg k Ha) as Hx. rewrite R in Hx. destruct (abs_reg k); [discriminate|auto]. }
+        rewrite En. rewrite abs_length_train.
+        destruct (m0 <? length (w_mods w)) eqn:Hlt; simpl.
+        2:{ intros Herr. (rewrite nth_error_abs_hooks || rewrite nth_error_map); rewrite Hk; simpl. rewrite En. split; auto.
+            intros m' q. rewrite Hm, Herr. simpl. auto. }
+        destruct (kwargs_ok (k_cfg k)) eqn:Hkw; simpl.
+        2:{ intros Herr. (rewrite nth_error_abs_hooks || rewrite nth_error_map); rewrite Hk; simpl. rewrite En. split; auto.
+            intros m' q. rewrite Hm, Herr. simpl. auto. }
+        intros Herr. unfold a_set. simpl a_hooks. rewrite nth_error_upd_eq.
+        2:{ unfold abs; simpl. rewrite map_length. eapply nth_error_Some_lt; eauto. }
+        simpl. rewrite ord_insert_length. split; auto.
+        intros m' q. rewrite Hm, Herr, ord_lst_insert, Elen, Hlt, andb_true_r. simpl.
+        destruct ((m0 =? m') && c_has (k_cfg k) q); rewrite Hord; reflexivity. }
+    simpl a_cfg. destruct (c_kind (k_cfg k)) eqn:Ck.
+    + destruct (Hreg m) as [H1 H2]. destruct (hook_register w h k m) as [w' e]; simpl in *. auto.
+    + destruct (Hreg m) as [H1 H2]. destruct (hook_register w h k m) as [w' e]; simpl in *. auto.
+    + simpl a_reg. rewrite (is_some_abs_reg k Ha). destruct (registered k) eqn:R; simpl.
+      * (rewrite nth_error_abs_hooks || rewrite nth_error_map); rewrite Hk; simpl.
+        assert (En : abs_reg k <> None).
+        { intros En. pose proof (is_some_abs_reg k Ha) as Hx. rewrite En, R in Hx. discriminate. }
+        destruct (abs_reg k); [auto|congruence].
+      * destruct (Hreg (c_mod (k_cfg k))) as [H1 H2].
+        destruct (hook_register w h k (c_mod (k_cfg k))) as [w' e]; simpl in *. auto.
+  - (* ODeregister *)
+    cbn [o_ord step]. unfold with_hook. rewrite ord_remove_length.
+    destruct (nth_error (w_hooks w) h) as [k|] eqn:Hk; simpl.
+    + destruct (k_alive k) eqn:Ha; simpl.
+      * rewrite detach_handles_length. split; auto. intros m q.
+        rewrite (detach_by_hook w h k m q HS Hk Ha), ord_lst_remove, Hord. reflexivity.
+      * split; auto. intros m q. rewrite ord_lst_remove, <- Hord. symmetry. apply filter_notin.
+        apply dead_not_listed; auto. intros k0 E. rewrite Hk in E. inversion E; subst; auto.
+    + split; auto. intros m q. rewrite ord_lst_remove, <- Hord. symmetry. apply filter_notin.
+      apply dead_not_listed; auto. intros k0 E. rewrite Hk in E. discriminate.
+  - (* OSetTrain *)
+    simpl. destruct (nth_error (w_mods w) m) as [md|] eqn:Hm; simpl; auto.
+    rewrite upd_length. split; auto. intros m' q. rewrite (mod_lst_train _ _ _ _ _ _ Hm). auto.
+  - (* OSetExec *)
+    simpl. unfold with_hook. destruct (nth_error (w_hooks w) h) as [k|]; simpl; auto.
+    destruct (k_alive k); simpl; auto.
+  - (* OCall *)
+    simpl. destruct (call w m fail). simpl. auto.
+  - (* OManual *)
+    simpl. unfold with_hook. destruct (nth_error (w_hooks w) h) as [k|]; simpl; auto.
+    destruct (k_alive k); simpl; auto. destruct (c_kind (k_cfg k)); simpl; auto.
+    destruct (manual w h k force ignore); simpl; auto.
+  - (* ODelete *)
+    cbn [o_ord step]. unfold with_hook. rewrite ord_remove_length.
+    destruct (nth_error (w_hooks w) h) as [k|] eqn:Hk; simpl.
+    + destruct (k_alive k) eqn:Ha; simpl.
+      * assert (Em : match k_fin k with Some (a, b) => detach_handles (w_mods w) a b | None => w_mods w end
+                     = detach_handles (w_mods w) (k_preh k) (k_posth k)).
+        { rewrite (p_fin _ _ (HP h k Hk Ha)). destruct (registered k) eqn:R; auto.
+          destruct (registered_false k R) as [-> ->]. reflexivity. }
+        rewrite Em, detach_handles_length. split; auto. intros m q.
+        rewrite (detach_by_hook w h k m q HS Hk Ha), ord_lst_remove, Hord. reflexivity.
+      * split; auto. intros m q. rewrite ord_lst_remove, <- Hord. symmetry. apply filter_notin.
+        apply dead_not_listed; auto. intros k0 E. rewrite Hk in E. inversion E; subst; auto.
+    + split; auto. intros m q. rewrite ord_lst_remove, <- Hord. symmetry. apply filter_notin.
+      apply dead_not_listed; auto. intros k0 E. rewrite Hk in E. discriminate.
+Qed.
+
+(* with the invariant, the concrete event list of a call IS the specification's *)
+Theorem call_exact_state w ow m fail :
+  Inv w -> OInv w ow -> m < length (w_mods w) ->
+  call w m fail = (spec_call ow m fail, if fail then Some EValue else None).
+Proof.
+  intros HI [Eabs [Elen Hord]] Hm. pose proof HI as [HS HP].
+  rewrite (call_ok w m fail HS Hm). f_equal. unfold spec_call. rewrite Eabs.
+  rewrite <- !Hord. unfold call_pre, call_post, mod_lst.
+  destruct (nth_error (w_mods w) m) as [md|] eqn:Hmd; [|apply nth_error_None in Hmd; lia].
+  rewrite !flat_map_map. simpl lst.
+  assert (Hpt : forall q b e, In e (lst md q) ->
+            (if b || e_always e then fire_of (w_hooks w) (m_training md) q e else []) =
+            (if match nth_error (w_hooks w) (e_hook e) with
+                | Some k => k_alive k && reg_on (abs_hook k) m && c_has (k_cfg k) q && a_armed (abs_hook k) (m_training md)
+                            && (b || alw (k_cfg k) q)
+                | None => false end
+             then [EFire (e_hook e) (a_tag (abs w) (e_hook e) q)] else [])).
+  { intros q b e Hin.
+    assert (Hin' : In e (mod_lst (w_mods w) m q)) by (unfold mod_lst; rewrite Hmd; auto).
+    destruct (s_entries _ HS m q e Hin') as [_ [k [Hk [Ha [Hh Hal]]]]].
+    destruct (proj1 (reg_iff _ k q m (HP _ k Hk Ha) Ha) (ex_intro _ _ Hh)) as [R1 R2].
+    unfold fire_of, a_tag. rewrite nth_error_abs_hooks, Hk, Ha, R1, R2, Hal, <- armed_a_armed. simpl.
+    destruct (b || alw (k_cfg k) q); [|rewrite andb_false_r; reflexivity].
+    rewrite andb_true_r. destruct (armed k (m_training md)); reflexivity. }
+  f_equal; [|f_equal].
+  - apply flat_map_ext_in. intros e Hin. pose proof (Hpt true true e Hin) as H. simpl in H. rewrite H.
+    unfold a_fires_pre. rewrite nth_error_abs_hooks, nth_error_abs_train, Hmd.
+    destruct (nth_error (w_hooks w) (e_hook e)); simpl; auto. rewrite andb_true_r. reflexivity.
+  - apply flat_map_ext_in. intros e Hin. rewrite (Hpt false (negb fail) e Hin).
+    unfold a_fires_post. rewrite nth_error_abs_hooks, nth_error_abs_train, Hmd.
+    destruct (nth_error (w_hooks w) (e_hook e)); simpl; auto.
+Qed.
+
+Lemma oinv_init n : OInv (w0 n) (o0 n).
+Proof.
+  split; [symmetry; apply abs_init|]. split; [simpl; rewrite !repeat_length; auto|].
+  intros m q. unfold mod_lst, ord_lst, w0, o0; simpl.
+  destruct (nth_error (repeat _ n) m) eqn:E1.
+  - apply nth_error_In, repeat_spec in E1. subst.
+    destruct (nth_error (repeat ([], []) n) m) eqn:E2.
+    + apply nth_error_In, repeat_spec in E2. subst. destruct q; reflexivity.
+    + destruct q; reflexivity.
+  - destruct (nth_error (repeat ([], []) n) m) eqn:E2; auto.
+    apply nth_error_In, repeat_spec in E2. subst. destruct q; reflexivity.
+Qed.
+
+Lemma orun_sound w ow ops :
+  Inv w -> OInv w ow -> forallb safe_op ops = true ->
+  Inv (fst (run w ops)) /\ OInv (fst (run w ops)) (orun ow ops).
+Proof.
+  revert w ow; induction ops as [|o tl IH]; simpl; intros w ow HI HO Hs; auto.
+  apply andb_prop in Hs. destruct Hs as [Ho Hs].
+  destruct (step_sound w o HI Ho) as [H1 _]. pose proof (ostep_sound w ow o HI Ho HO) as H2.
+  destruct (step w o) as [[w' ev] e]. simpl in *.
+  destruct (IH w' (ostep ow o) H1 H2 Hs) as [H3 H4]. destruct (run w' tl) as [w'' outs]. simpl in *. auto.
+Qed.
+
+(* FLAGSHIP (exact form): for every history the complete event sequence of a module call - which hooks
+   run, in which position, in which ORDER (prepend), with which callable, and forward in between - equals
+   the sequence computed by the handle-free ordered abstract machine from the same history *)
+Theorem dispatch_exact n ops m fail :
+  forallb safe_op ops = true -> m < n ->
+  let w := fst (run (w0 n) ops) in
+  step w (OCall m fail) = (w, spec_call (orun (o0 n) ops) m fail, if fail then Some EValue else None).
+Proof.
+  intros Hs Hm w. destruct (orun_sound (w0 n) (o0 n) ops (inv_init n) (oinv_init n) Hs) as [HI HO]. fold w in HI, HO.
+  assert (Hl : m < length (w_mods w)) by (unfold w; rewrite reach_mods_length; auto).
+  simpl. rewrite (call_exact_state w _ m fail HI HO Hl). reflexivity.
+Qed.
